@@ -24,7 +24,7 @@ PLAN = {
     # (families, stride, chunks per family): every stride-th behaviour (offset = seed mod stride, so different seeds cover
     # different residues) split over `chunks` trace files
     Q: dict(gens=[dict(depth=4, ops='{"few", "many", "alt"}', timeout=300, replay=[(ALL_FAMS, 1, 1)]),
-                  dict(depth=5, ops='{"few", "many", "alt"}', timeout=300, replay=[(CORE_FAMS, 12, 1), (REST_FAMS, 48, 1)])]),
+                  dict(depth=5, ops='{"few", "many", "alt"}', timeout=300, replay=[(CORE_FAMS, 16, 1), (REST_FAMS, 64, 1)])]),
     T: dict(gens=[dict(depth=5, ops='{"few", "many", "alt"}', timeout=600, replay=[(CORE_FAMS, 1, 4), (REST_FAMS, 4, 1)]),
                   dict(depth=6, ops='{"few", "many"}', timeout=1200, replay=[(CORE_FAMS, 64, 1), (REST_FAMS, 256, 1)])]),
 }
@@ -111,7 +111,7 @@ def life_nontrivial(evs):
         elif k == "ChainAssign":
             if mutated.get(c):
                 return True
-        elif k in ("MergeRef", "MergeMove"):
+        elif k in ("MergeRef", "MergeCRef", "MergeMove"):
             if mutated.get(i) or mutated.get(j):
                 return True
     return False
@@ -135,7 +135,7 @@ LIFE_MC = [dict(module="MC_Lifecycle", cfg="MC_Lifecycle.cfg", timeout=600)]
 
 @prop("C19", "model_checking",
       "MC: exhaustive TLC run of the Lifecycle contract (2 slots) and TLC ENUMERATION of all interleavings of the lifecycle alphabet "
-      "(Construct, Mutate(few/many/alt), Copy/MoveConstruct, Copy/Move/Self/ChainAssign, MergeRef/MergeMove, Serialize, Reset, Destroy) over 3 slots "
+      "(Construct, Mutate(few/many/alt), Copy/MoveConstruct, Copy/Move/Self/ChainAssign, MergeRef (non-const lvalue) / MergeCRef (const lvalue) / MergeMove (rvalue), Serialize, Reset, Destroy) over 3 slots "
       "to depth 4 full + 5 strided (quick) / 5 full (core families; strided for the others) + 6 strided (thorough), pruned by slot symmetry, adjacent-commuting-call order and per-kind quotas; "
       "traces: every generated behaviour is replayed on the real classes of each family (tracking allocator with per-instance ids, instrumented item with "
       "serial/canary where the family is generic, constant coin and seed before every call) and every (family, behaviour) segment is validated by TLC "
@@ -145,7 +145,7 @@ LIFE_MC = [dict(module="MC_Lifecycle", cfg="MC_Lifecycle.cfg", timeout=600)]
       ["the digest is a 64-bit content hash of the family's serialized image(s) plus scalar getters (a collision could hide a difference)",
        "library randomness is made a function of the call (random_utils::override_seed and the random_bit hook before every call), so equal histories "
        "must give equal states; observations (serialization of every live slot after every call) are part of every history",
-       "quick tier replays ALL depth-4 behaviours for all 19 types and every 12th (theta/kll/req/fi/hll/cpc) / 48th (other 13 types) depth-5 behaviour, the "
+       "quick tier replays ALL depth-4 behaviours for all 19 types and every 16th (theta/kll/req/fi/hll/cpc) / 64th (other 13 types) depth-5 behaviour, the "
        "residue chosen by --seed; behaviours containing an echo Mutate are always replayed; thorough replays ALL depth-5 behaviours for the six core "
        "types and every 4th for the others, every 64th / 256th depth-6 behaviour, and every 16th depth-5 behaviour in an AddressSanitizer build",
        "memory obtained outside the user's allocator (global operator new) is counted per call in the trace (field f) but not judged: the C++ standard "
